@@ -120,6 +120,14 @@ fn run(v: &serde_lite::Value) -> String {
                 t => format!("{{\"error\":\"unknown type {}\"}}", t),
             }
         }
+        "ease_custom" => {
+            // a custom easing that is NOT anchored at (0,0) / (1,1): c(x) = 0.25 + 0.5 x
+            use mina_core::easing::{Easing, EasingFunction};
+            #[derive(Clone, Debug)] struct Shifted;
+            impl EasingFunction for Shifted { fn calc(&self, x: f32) -> f32 { 0.25 + 0.5 * x } }
+            let x = f(v.get("x"));
+            format!("{{\"via_easing\":{},\"direct\":{}}}", Easing::Custom(Box::new(Shifted)).calc(x).to_bits(), Shifted.calc(x).to_bits())
+        }
         "glam_lerp" => {
             // component-wise interpolation of a glam vector type: components are passed as decimal strings
             use mina_core::interpolation::Lerp;
